@@ -4,7 +4,7 @@
 #include "drv_core.h"
 #include "vf_sched.h"
 #include <sys/wait.h>
-static void vf_trace_step(int kind, const volatile void* addr, uintptr_t oldv, uintptr_t newv, int ok) { (void)kind; (void)addr; (void)oldv; (void)newv; (void)ok; }
+static void vf_trace_step(const char* fn, int kind, const volatile void* addr, uintptr_t oldv, uintptr_t newv, int ok) { (void)fn; (void)kind; (void)addr; (void)oldv; (void)newv; (void)ok; }
 
 #define NF 3
 /* the words behind the bitmap play the role of the next bitmap of an arena (blocks_dirty follows blocks_inuse): all clear, and they
